@@ -288,18 +288,11 @@ impl C12 {
                     }
                     total_out.extend_from_slice(o);
                     total_err.extend_from_slice(e);
-                    if !o.is_empty() {
-                        let mut b = b"[stdout] ".to_vec();
-                        b.extend_from_slice(o);
-                        b.push(b'\n');
-                        pieces.push(ex(Piece::Exact(b), "line-stdout", format!("{}: stdout of this line's commands, once", note)));
-                    }
-                    if !e.is_empty() {
-                        let mut b = b"[stderr] ".to_vec();
-                        b.extend_from_slice(e);
-                        b.push(b'\n');
-                        pieces.push(ex(Piece::Exact(b), "line-stderr", format!("{}: stderr of this line's commands, once", note)));
-                    }
+                    pieces.push(ex(
+                        Piece::Output { out: o.clone(), err: e.clone() },
+                        "line-output",
+                        format!("{}: output of this line's commands, each character once", note),
+                    ));
                     if let Some(c) = end {
                         want = Ending::Exit { site: "pop_stack_wrap", code: *c };
                     }
@@ -316,7 +309,7 @@ impl C12 {
                 return out;
             }
             Ok((pos, _)) => {
-                if !stop_matching && pos != t.len() {
+                if !stop_matching && crate::transcript::skip_log_lines(&t, pos) != t.len() {
                     out.violation = Some(Violation::new(
                         "extra-output",
                         "transcript ends after the last expected piece",
